@@ -1,1 +1,1149 @@
-//! C13 harnesses (see /verif/tools/HARNESS_GUIDE.md).
+//! C13 — element-wise mapping operations follow their positional definitions.
+//!
+//! Every operation is run on a Vec of concrete length N with symbolic contents and parameters; the
+//! expected output is computed beforehand by the positional definition written out as plain loops
+//! over arrays (no library code), then the operation's iterator is consumed by plain iteration and
+//! compared element by element; the number of elements must be exactly N.
+//!
+//! Element types: i32 (where no null is needed), Option<i32>, f64 built from small integers with a
+//! symbolic NaN (canonical null; comparisons only — the single subtraction / division of vdiff /
+//! vpct_change is compared with the same expression in the oracle).
+//!
+//! Kept apart because they fail on the pinned tree:
+//!   `c13_shift_beyond_len_*` — `MapBasic::shift` with |n| > len (D1, shared with C09)
+//!   `c13_lag0_nulls_*`       — `vdiff(0)` / `vpct_change(0)` return 0 also where the element is null
+//!                              (or the base is zero), D3
+use std::collections::VecDeque;
+
+use ndarray::Array1;
+use tea_core::prelude::*;
+use tea_map::{MapBasic, MapValidBasic, MapValidVec};
+
+use crate::util::*;
+
+// ---------------------------------------------------------------------------------------------
+// equality (canonical nulls: NaN == NaN) and symbolic inputs
+// ---------------------------------------------------------------------------------------------
+
+pub fn eq_i32(a: &i32, b: &i32) -> bool {
+    *a == *b
+}
+pub fn eq_opt(a: &Option<i32>, b: &Option<i32>) -> bool {
+    *a == *b
+}
+pub fn eq_f64(a: &f64, b: &f64) -> bool {
+    (a.is_nan() && b.is_nan()) || *a == *b
+}
+
+pub fn small_arr<const N: usize>(lo: i32, hi: i32) -> [i32; N] {
+    let x: [i32; N] = kani::any();
+    let mut i = 0;
+    while i < N {
+        kani::assume(x[i] >= lo && x[i] <= hi);
+        i += 1;
+    }
+    x
+}
+
+/// f64 array of small integers with a symbolic null pattern
+pub fn f64_arr<const N: usize>(lo: i32, hi: i32) -> [f64; N] {
+    let mut x = [0.0f64; N];
+    let mut i = 0;
+    while i < N {
+        x[i] = small_f64_or_nan(lo, hi);
+        i += 1;
+    }
+    x
+}
+
+pub fn has_nan<const N: usize>(x: &[f64; N]) -> bool {
+    let mut i = 0;
+    let mut r = false;
+    while i < N {
+        r |= x[i].is_nan();
+        i += 1;
+    }
+    r
+}
+
+pub fn has_none<const N: usize>(x: &[Option<i32>; N]) -> bool {
+    let mut i = 0;
+    let mut r = false;
+    while i < N {
+        r |= x[i].is_none();
+        i += 1;
+    }
+    r
+}
+
+/// consume `$it` by plain iteration and compare with the array `$want` of length `$n`
+macro_rules! positional {
+    ($it:expr, $want:expr, $n:expr, $eq:expr, $msg:literal) => {{
+        let mut it = $it;
+        let want = $want;
+        let mut i = 0usize;
+        while i <= $n {
+            match it.next() {
+                Some(v) => {
+                    assert!(i < $n, "the output has no more elements than the input");
+                    assert!($eq(&v, &want[i]), $msg);
+                },
+                None => break,
+            }
+            i += 1;
+        }
+        assert!(i == $n, "the output has exactly as many elements as the input");
+    }};
+}
+
+/// like `positional!`, but the value at position i is only judged where `$chk(i)` holds (the
+/// count is always judged); used to keep a known defect out of the main law of an operation
+macro_rules! positional_if {
+    ($it:expr, $want:expr, $n:expr, $eq:expr, $chk:expr, $msg:literal) => {{
+        let mut it = $it;
+        let want = $want;
+        let mut i = 0usize;
+        while i <= $n {
+            match it.next() {
+                Some(v) => {
+                    assert!(i < $n, "the output has no more elements than the input");
+                    if $chk(i) {
+                        assert!($eq(&v, &want[i]), $msg);
+                    }
+                },
+                None => break,
+            }
+            i += 1;
+        }
+        assert!(i == $n, "the output has exactly as many elements as the input");
+    }};
+}
+
+/// vacuity witness of a harness instance (returned by the generic bodies)
+pub fn witness(w: bool) {
+    kani::cover!(w, "interesting region of the parameter space reached and passed");
+}
+
+// ---------------------------------------------------------------------------------------------
+// positional definitions (oracles)
+// ---------------------------------------------------------------------------------------------
+
+/// out[i] = x[i-n] if 0 <= i-n < N else fill   (n > 0 moves towards the end)
+pub fn shifted<T: Copy, const N: usize>(x: &[T; N], n: i32, fill: T) -> [T; N] {
+    let mut out = [fill; N];
+    let mut i = 0;
+    while i < N {
+        let j = i as i64 - n as i64;
+        if j >= 0 && j < N as i64 {
+            out[i] = x[j as usize];
+        }
+        i += 1;
+    }
+    out
+}
+
+/// out[i] = x[i] - x[i-n] where i-n is inside the series, else fill
+pub fn diffed_i32<const N: usize>(x: &[i32; N], n: i32, fill: i32) -> [i32; N] {
+    let mut out = [fill; N];
+    let mut i = 0;
+    while i < N {
+        let j = i as i64 - n as i64;
+        if j >= 0 && j < N as i64 {
+            out[i] = x[i] - x[j as usize];
+        }
+        i += 1;
+    }
+    out
+}
+
+/// the same for floats; a null operand makes the difference null by itself (NaN - y = NaN)
+pub fn diffed_f64<const N: usize>(x: &[f64; N], n: i32, fill: f64) -> [f64; N] {
+    let mut out = [fill; N];
+    let mut i = 0;
+    while i < N {
+        let j = i as i64 - n as i64;
+        if j >= 0 && j < N as i64 {
+            out[i] = x[i] - x[j as usize];
+        }
+        i += 1;
+    }
+    out
+}
+
+/// out[i] = x[i]/x[i-n] - 1 where both exist, are non-null and the base is not 0, else null
+pub fn pct_f64<const N: usize>(x: &[f64; N], n: i32) -> [f64; N] {
+    let mut out = [f64::NAN; N];
+    let mut i = 0;
+    while i < N {
+        let j = i as i64 - n as i64;
+        if j >= 0 && j < N as i64 {
+            let (b, a) = (x[i], x[j as usize]);
+            if !a.is_nan() && !b.is_nan() && a != 0. {
+                out[i] = b / a - 1.;
+            }
+        }
+        i += 1;
+    }
+    out
+}
+
+pub fn to_f64<const N: usize>(x: &[i32; N]) -> [f64; N] {
+    let mut out = [0.0f64; N];
+    let mut i = 0;
+    while i < N {
+        out[i] = x[i] as f64;
+        i += 1;
+    }
+    out
+}
+
+/// forward fill: a masked element becomes the nearest earlier unmasked element, else the default,
+/// else null; unmasked elements are untouched
+pub fn ffilled<T: Copy, const N: usize>(x: &[T; N], masked: impl Fn(&T) -> bool, dflt: Option<T>, none: T) -> [T; N] {
+    let mut out = *x;
+    let mut i = 0;
+    while i < N {
+        if masked(&x[i]) {
+            let mut r = match dflt {
+                Some(d) => d,
+                None => none,
+            };
+            // nearest earlier unmasked element: scan upwards, the last hit wins
+            let mut j = 0;
+            while j < i {
+                if !masked(&x[j]) {
+                    r = x[j];
+                }
+                j += 1;
+            }
+            out[i] = r;
+        }
+        i += 1;
+    }
+    out
+}
+
+/// backward fill: nearest later unmasked element
+pub fn bfilled<T: Copy, const N: usize>(x: &[T; N], masked: impl Fn(&T) -> bool, dflt: Option<T>, none: T) -> [T; N] {
+    let mut out = *x;
+    let mut i = 0;
+    while i < N {
+        if masked(&x[i]) {
+            let mut r = match dflt {
+                Some(d) => d,
+                None => none,
+            };
+            // nearest later unmasked element: scan downwards from the end, the last hit wins
+            let mut j = N;
+            while j > i + 1 {
+                j -= 1;
+                if !masked(&x[j]) {
+                    r = x[j];
+                }
+            }
+            out[i] = r;
+        }
+        i += 1;
+    }
+    out
+}
+
+/// fill acts on each element alone and touches only the masked ones
+pub fn filled<T: Copy, const N: usize>(x: &[T; N], masked: impl Fn(&T) -> bool, value: T) -> [T; N] {
+    let mut out = *x;
+    let mut i = 0;
+    while i < N {
+        if masked(&x[i]) {
+            out[i] = value;
+        }
+        i += 1;
+    }
+    out
+}
+
+/// clip of one element: nulls stay null; below a non-null lower bound -> lower; else above a non-null
+/// upper bound -> upper; else unchanged
+pub fn clip1(v: Option<i32>, lo: Option<i32>, hi: Option<i32>) -> Option<i32> {
+    match v {
+        None => None,
+        Some(e) => {
+            if let Some(l) = lo {
+                if e < l {
+                    return Some(l);
+                }
+            }
+            if let Some(u) = hi {
+                if e > u {
+                    return Some(u);
+                }
+            }
+            Some(e)
+        },
+    }
+}
+
+pub fn clipped<const N: usize>(x: &[Option<i32>; N], lo: Option<i32>, hi: Option<i32>) -> [Option<i32>; N] {
+    let mut out = *x;
+    let mut i = 0;
+    while i < N {
+        out[i] = clip1(x[i], lo, hi);
+        i += 1;
+    }
+    out
+}
+
+pub fn clip1_f64(v: f64, lo: f64, hi: f64) -> f64 {
+    if v.is_nan() {
+        return v;
+    }
+    if !lo.is_nan() && v < lo {
+        return lo;
+    }
+    if !hi.is_nan() && v > hi {
+        return hi;
+    }
+    v
+}
+
+pub fn clipped_f64<const N: usize>(x: &[f64; N], lo: f64, hi: f64) -> [f64; N] {
+    let mut out = *x;
+    let mut i = 0;
+    while i < N {
+        out[i] = clip1_f64(x[i], lo, hi);
+        i += 1;
+    }
+    out
+}
+
+// ---------------------------------------------------------------------------------------------
+// 1. shift (unguarded; lag band) and vshift (lag over the full i32 range)
+// ---------------------------------------------------------------------------------------------
+
+pub fn band_lag(len: usize, beyond: bool) -> (i32, bool) {
+    let n = small_i32(-(len as i32) - 3, len as i32 + 3);
+    let na = n.unsigned_abs() as usize;
+    kani::assume((na > len) == beyond);
+    kani::cover!(!beyond || n < 0, "beyond: n < -len");
+    kani::cover!(!beyond || n > 0, "beyond: n > len");
+    kani::cover!(beyond || n == 0, "within: n == 0");
+    (n, if len >= 2 { na > 0 && na < len } else { true })
+}
+
+pub fn full_lag(len: usize) -> (i32, bool) {
+    let n: i32 = kani::any();
+    kani::cover!(n == i32::MIN, "lag i32::MIN");
+    kani::cover!(n == i32::MAX, "lag i32::MAX");
+    kani::cover!(n.unsigned_abs() as usize > len, "|n| > len");
+    kani::cover!(n == 0, "n == 0");
+    let na = n.unsigned_abs() as usize;
+    (n, if len >= 2 { na > 0 && na < len } else { na >= len })
+}
+
+pub fn shift_i32<const N: usize>(beyond: bool) -> bool {
+    let x: [i32; N] = kani::any();
+    let v = x.to_vec();
+    let (n, w) = band_lag(N, beyond);
+    let fill: i32 = kani::any();
+    let want = shifted(&x, n, fill);
+    positional!(v.titer().shift(n, fill), want, N, eq_i32, "shift: out[i] is x[i-n] inside the series and the fill value in the vacated places");
+    w
+}
+
+pub fn shift_opt<const N: usize>() -> bool {
+    let x: [Option<i32>; N] = kani::any();
+    let v = x.to_vec();
+    let (n, w) = band_lag(N, false);
+    let fill: Option<i32> = kani::any();
+    kani::cover!(fill.is_none(), "null fill");
+    let want = shifted(&x, n, fill);
+    positional!(v.titer().shift(n, fill), want, N, eq_opt, "shift: out[i] is x[i-n] inside the series and the fill value in the vacated places");
+    w
+}
+
+pub fn vshift_opt<const N: usize>() -> bool {
+    let x: [Option<i32>; N] = kani::any();
+    let v = x.to_vec();
+    let (n, w) = full_lag(N);
+    let fill: Option<Option<i32>> = kani::any();
+    kani::cover!(fill.is_none(), "fill omitted: null");
+    kani::cover!(matches!(fill, Some(Some(_))), "non-null fill");
+    let fv = match fill {
+        Some(f) => f,
+        None => None,
+    };
+    let want = shifted(&x, n, fv);
+    positional!(v.titer().vshift(n, fill), want, N, eq_opt, "vshift: out[i] is x[i-n] inside the series and the fill value / null in the vacated places");
+    w
+}
+
+pub fn vshift_f64<const N: usize>() -> bool {
+    let x: [f64; N] = f64_arr(-3, 3);
+    let v = x.to_vec();
+    let (n, w) = full_lag(N);
+    let fill: Option<f64> = if kani::any() { Some(small_f64_or_nan(-3, 3)) } else { None };
+    let fv = match fill {
+        Some(f) => f,
+        None => f64::NAN,
+    };
+    let want = shifted(&x, n, fv);
+    positional!(v.titer().vshift(n, fill), want, N, eq_f64, "vshift: out[i] is x[i-n] inside the series and the fill value / null in the vacated places");
+    w
+}
+
+pub fn vshift_i32<const N: usize>() -> bool {
+    let x: [i32; N] = kani::any();
+    let v = x.to_vec();
+    let (n, w) = full_lag(N);
+    let fill: i32 = kani::any();
+    let want = shifted(&x, n, fill);
+    positional!(v.titer().vshift(n, Some(fill)), want, N, eq_i32, "vshift: out[i] is x[i-n] inside the series and the fill value / null in the vacated places");
+    w
+}
+
+// D1 (fails on the pinned tree): |n| > len on the unguarded shift
+#[kani::proof]
+#[kani::unwind(9)]
+pub fn c13_shift_beyond_len_n2() {
+    witness(shift_i32::<2>(true));
+}
+
+#[kani::proof]
+#[kani::unwind(8)]
+pub fn c13_shift_within_i32_n3() {
+    witness(shift_i32::<3>(false));
+}
+
+#[kani::proof]
+#[kani::unwind(6)]
+pub fn c13_shift_within_small() {
+    let w: bool = {
+        shift_i32::<0>(false);
+        shift_opt::<1>();
+        shift_opt::<2>()
+    };
+    witness(w);
+}
+
+#[kani::proof]
+#[kani::unwind(8)]
+pub fn c13_vshift_opt_n3() {
+    witness(vshift_opt::<3>());
+}
+
+#[kani::proof]
+#[kani::unwind(8)]
+pub fn c13_vshift_f64_n3() {
+    witness(vshift_f64::<3>());
+}
+
+#[kani::proof]
+#[kani::unwind(6)]
+pub fn c13_vshift_small() {
+    let w: bool = {
+        vshift_opt::<0>();
+        vshift_f64::<1>();
+        vshift_i32::<2>()
+    };
+    witness(w);
+}
+
+
+#[cfg(feature = "thorough")]
+#[kani::proof]
+#[kani::unwind(7)]
+pub fn c13_shift_beyond_len_n0() {
+    witness(shift_i32::<0>(true));
+}
+
+#[cfg(feature = "thorough")]
+#[kani::proof]
+#[kani::unwind(11)]
+pub fn c13_shift_beyond_len_n4() {
+    witness(shift_i32::<4>(true));
+}
+
+#[cfg(feature = "thorough")]
+#[kani::proof]
+#[kani::unwind(9)]
+pub fn c13_shift_within_opt_n4() {
+    witness(shift_opt::<4>());
+}
+
+#[cfg(feature = "thorough")]
+#[kani::proof]
+#[kani::unwind(10)]
+pub fn c13_shift_within_i32_n5() {
+    witness(shift_i32::<5>(false));
+}
+
+#[cfg(feature = "thorough")]
+#[kani::proof]
+#[kani::unwind(9)]
+pub fn c13_vshift_opt_n4() {
+    witness(vshift_opt::<4>());
+}
+
+#[cfg(feature = "thorough")]
+#[kani::proof]
+#[kani::unwind(10)]
+pub fn c13_vshift_opt_n5() {
+    witness(vshift_opt::<5>());
+}
+
+#[cfg(feature = "thorough")]
+#[kani::proof]
+#[kani::unwind(9)]
+pub fn c13_vshift_f64_n4() {
+    witness(vshift_f64::<4>());
+}
+
+#[cfg(feature = "thorough")]
+#[kani::proof]
+#[kani::unwind(10)]
+pub fn c13_vshift_i32_n5() {
+    witness(vshift_i32::<5>());
+}
+
+
+// ---------------------------------------------------------------------------------------------
+// 2. vdiff / vpct_change (views), lag over the full i32 range, lag 0 apart
+// ---------------------------------------------------------------------------------------------
+
+/// i32 has no null: elements in -100..=100 (no overflow), the fill value is supplied
+pub fn vdiff_i32_on<V: Vec1View<i32>, const N: usize>(x: &[i32; N], v: &V) -> bool {
+    let (n, w) = full_lag(N);
+    let fill = small_i32(-100, 100);
+    let want = diffed_i32(x, n, fill);
+    // the vacated places of a positive lag with a non-null fill are D4 (c13_vdiff_poslag_fill_*)
+    let judged = |i: usize| !(n > 0 && (i as i64) < n as i64);
+    positional_if!(v.vdiff(n, Some(fill)), want, N, eq_i32, judged, "vdiff: out[i] is x[i]-x[i-n] where both exist and the fill value elsewhere");
+    w
+}
+
+pub fn vdiff_i32<const N: usize>() -> bool {
+    let x: [i32; N] = small_arr(-100, 100);
+    let v = x.to_vec();
+    vdiff_i32_on(&x, &v)
+}
+
+/// floats: null elements, fill omitted (null) or given; lag 0 is c13_lag0_*
+pub fn vdiff_f64_on<V: Vec1View<f64>, const N: usize>(x: &[f64; N], v: &V) -> bool {
+    let (n, w) = full_lag(N);
+    kani::assume(n != 0);
+    let fill: Option<f64> = if kani::any() { Some(small_f64_or_nan(-3, 3)) } else { None };
+    let fv = match fill {
+        Some(f) => f,
+        None => f64::NAN,
+    };
+    kani::cover!(N == 0 || has_nan(x), "null element");
+    kani::cover!(fv.is_nan() && n > 0, "positive lag, null fill");
+    let want = diffed_f64(x, n, fv);
+    // the vacated places of a positive lag with a non-null fill are D4 (c13_vdiff_poslag_fill_*)
+    let judged = |i: usize| !(n > 0 && (i as i64) < n as i64 && !fv.is_nan());
+    positional_if!(v.vdiff(n, fill), want, N, eq_f64, judged, "vdiff: out[i] is x[i]-x[i-n] where both exist and are non-null, the fill value / null elsewhere");
+    w
+}
+
+pub fn vdiff_f64<const N: usize>() -> bool {
+    let x: [f64; N] = f64_arr(-3, 3);
+    let v = x.to_vec();
+    vdiff_f64_on(&x, &v)
+}
+
+pub fn vpct_i32_on<V: Vec1View<i32>, const N: usize>(x: &[i32; N], v: &V) -> bool {
+    let (n, w) = full_lag(N);
+    kani::assume(n != 0);
+    let xf = to_f64(x);
+    let want = pct_f64(&xf, n);
+    positional!(v.vpct_change(n), want, N, eq_f64, "vpct_change: out[i] is x[i]/x[i-n]-1 where both exist and the base is not 0, null elsewhere");
+    w
+}
+
+pub fn vpct_i32<const N: usize>() -> bool {
+    let x: [i32; N] = small_arr(-3, 3);
+    let v = x.to_vec();
+    vpct_i32_on(&x, &v)
+}
+
+pub fn vpct_f64_on<V: Vec1View<f64>, const N: usize>(x: &[f64; N], v: &V) -> bool {
+    let (n, w) = full_lag(N);
+    kani::assume(n != 0);
+    kani::cover!(N == 0 || has_nan(x), "null element");
+    let want = pct_f64(x, n);
+    positional!(v.vpct_change(n), want, N, eq_f64, "vpct_change: out[i] is x[i]/x[i-n]-1 where both exist, are non-null and the base is not 0, null elsewhere");
+    w
+}
+
+pub fn vpct_f64<const N: usize>() -> bool {
+    let x: [f64; N] = f64_arr(-3, 3);
+    let v = x.to_vec();
+    vpct_f64_on(&x, &v)
+}
+
+/// D4 (fails on the pinned tree): positive lag with a non-null fill value — the vacated places
+/// 0..n hold x[i] - fill instead of the fill value (the fill is fed through the subtraction).
+pub fn vdiff_poslag_fill<const N: usize>() -> bool {
+    let n = small_i32(1, N as i32 + 1);
+    if kani::any() {
+        let x: [i32; N] = small_arr(-100, 100);
+        let v = x.to_vec();
+        let fill = small_i32(-100, 100);
+        let want = diffed_i32(&x, n, fill);
+        let judged = |i: usize| (i as i64) < n as i64;
+        positional_if!(v.vdiff(n, Some(fill)), want, N, eq_i32, judged, "vdiff: the places vacated by a positive lag hold the fill value");
+    } else {
+        let x: [f64; N] = f64_arr(-3, 3);
+        let v = x.to_vec();
+        let fill = small_i32(-3, 3) as f64;
+        let want = diffed_f64(&x, n, fill);
+        let judged = |i: usize| (i as i64) < n as i64;
+        positional_if!(v.vdiff(n, Some(fill)), want, N, eq_f64, judged, "vdiff (floats): the places vacated by a positive lag hold the non-null fill value");
+    }
+    true
+}
+
+/// lag 0 on elements for which the definition gives a number: x[i]-x[i] = 0, x[i]/x[i]-1 = 0
+pub fn lag0_valid<const N: usize>() -> bool {
+    let x: [f64; N] = f64_arr(-3, 3);
+    let v = x.to_vec();
+    let mut i = 0;
+    while i < N {
+        kani::assume(!x[i].is_nan() && x[i] != 0.);
+        i += 1;
+    }
+    let zeros = [0.0f64; N];
+    positional!(v.vdiff(0, None), zeros, N, eq_f64, "vdiff at lag 0 is 0 on non-null elements");
+    positional!(v.vpct_change(0), zeros, N, eq_f64, "vpct_change at lag 0 is 0 on non-null elements with a non-zero base");
+    let y: [i32; N] = small_arr(-100, 100);
+    let vy = y.to_vec();
+    let zi = [0i32; N];
+    positional!(vy.vdiff(0, Some(7)), zi, N, eq_i32, "vdiff at lag 0 is 0 for integers");
+    true
+}
+
+/// D3 (fails on the pinned tree): lag 0 where the element is null (vdiff, vpct_change) or the base
+/// is zero (vpct_change): the definition gives null (x[i]-x[i] with x[i] null; x[i]/x[i]-1 with a
+/// null or zero base), the library returns 0.
+pub fn lag0_nulls<const N: usize>() -> bool {
+    let x: [f64; N] = f64_arr(-3, 3);
+    let v = x.to_vec();
+    let sel: bool = kani::any();
+    if sel {
+        let want = diffed_f64(&x, 0, f64::NAN);
+        positional!(v.vdiff(0, None), want, N, eq_f64, "vdiff at lag 0 is null where the element is null");
+    } else {
+        let want = pct_f64(&x, 0);
+        positional!(v.vpct_change(0), want, N, eq_f64, "vpct_change at lag 0 is null where the element is null or zero");
+    }
+    true
+}
+
+#[kani::proof]
+#[kani::unwind(8)]
+pub fn c13_vdiff_i32_n3() {
+    witness(vdiff_i32::<3>());
+}
+
+#[kani::proof]
+#[kani::unwind(8)]
+pub fn c13_vdiff_f64_n3() {
+    witness(vdiff_f64::<3>());
+}
+
+#[kani::proof]
+#[kani::unwind(6)]
+pub fn c13_vdiff_small() {
+    let w: bool = {
+        vdiff_f64::<0>();
+        vdiff_i32::<1>();
+        vdiff_f64::<2>()
+    };
+    witness(w);
+}
+
+#[kani::proof]
+#[kani::unwind(8)]
+pub fn c13_vpct_i32_n3() {
+    witness(vpct_i32::<3>());
+}
+
+#[kani::proof]
+#[kani::unwind(8)]
+pub fn c13_vpct_f64_n3() {
+    witness(vpct_f64::<3>());
+}
+
+#[kani::proof]
+#[kani::unwind(6)]
+pub fn c13_vpct_small() {
+    let w: bool = {
+        vpct_f64::<0>();
+        vpct_i32::<1>()
+    };
+    witness(w);
+}
+
+#[kani::proof]
+#[kani::unwind(7)]
+pub fn c13_vdiff_poslag_fill_n2() {
+    witness(vdiff_poslag_fill::<2>());
+}
+
+#[kani::proof]
+#[kani::unwind(8)]
+pub fn c13_lag0_valid_n3() {
+    witness(lag0_valid::<3>());
+}
+
+#[kani::proof]
+#[kani::unwind(7)]
+pub fn c13_lag0_nulls_n2() {
+    witness(lag0_nulls::<2>());
+}
+
+
+pub fn vdiff_deque<const N: usize>() -> bool {
+    let x: [f64; N] = f64_arr(-3, 3);
+    let v = deque_rot(&x[..], 1);
+    vdiff_f64_on(&x, &v)
+}
+pub fn vdiff_nd<const N: usize>() -> bool {
+    let x: [i32; N] = small_arr(-100, 100);
+    let v = nd_owned(&x[..]);
+    vdiff_i32_on(&x, &v)
+}
+pub fn vpct_deque<const N: usize>() -> bool {
+    let x: [i32; N] = small_arr(-3, 3);
+    let v = deque_rot(&x[..], 1);
+    vpct_i32_on(&x, &v)
+}
+pub fn vpct_nd<const N: usize>() -> bool {
+    let x: [f64; N] = f64_arr(-3, 3);
+    let v = nd_owned(&x[..]);
+    vpct_f64_on(&x, &v)
+}
+
+#[cfg(feature = "thorough")]
+#[kani::proof]
+#[kani::unwind(10)]
+pub fn c13_vdiff_i32_n5() {
+    witness(vdiff_i32::<5>());
+}
+
+#[cfg(feature = "thorough")]
+#[kani::proof]
+#[kani::unwind(9)]
+pub fn c13_vdiff_f64_n4() {
+    witness(vdiff_f64::<4>());
+}
+
+#[cfg(feature = "thorough")]
+#[kani::proof]
+#[kani::unwind(9)]
+pub fn c13_vpct_i32_n4() {
+    witness(vpct_i32::<4>());
+}
+
+#[cfg(feature = "thorough")]
+#[kani::proof]
+#[kani::unwind(9)]
+pub fn c13_vpct_f64_n4() {
+    witness(vpct_f64::<4>());
+}
+
+#[cfg(feature = "thorough")]
+#[kani::proof]
+#[kani::unwind(8)]
+pub fn c13_vdiff_deque_n3() {
+    witness(vdiff_deque::<3>());
+}
+
+#[cfg(feature = "thorough")]
+#[kani::proof]
+#[kani::unwind(11)]
+pub fn c13_vdiff_nd_n3() {
+    witness(vdiff_nd::<3>());
+}
+
+#[cfg(feature = "thorough")]
+#[kani::proof]
+#[kani::unwind(8)]
+pub fn c13_vpct_deque_n3() {
+    witness(vpct_deque::<3>());
+}
+
+#[cfg(feature = "thorough")]
+#[kani::proof]
+#[kani::unwind(11)]
+pub fn c13_vpct_nd_n3() {
+    witness(vpct_nd::<3>());
+}
+
+#[cfg(feature = "thorough")]
+#[kani::proof]
+#[kani::unwind(10)]
+pub fn c13_lag0_valid_n5() {
+    witness(lag0_valid::<5>());
+}
+
+
+// ---------------------------------------------------------------------------------------------
+// 3. ffill / bfill (with and without default), *_mask with a symbolic mask predicate, fill(_mask)
+// ---------------------------------------------------------------------------------------------
+
+pub fn ffill_opt<const N: usize>() -> bool {
+    let x: [Option<i32>; N] = kani::any();
+    let v = x.to_vec();
+    let d: Option<Option<i32>> = kani::any();
+    kani::cover!(d.is_none(), "no default");
+    kani::cover!(matches!(d, Some(Some(_))), "non-null default");
+    kani::cover!(N == 0 || x[0].is_none(), "leading null");
+    let want = ffilled(&x, |e: &Option<i32>| e.is_none(), d, None);
+    positional!(v.titer().ffill(d), want, N, eq_opt, "ffill: a null becomes the nearest earlier non-null element, else the default, else null");
+    let k: Option<i32> = kani::any();
+    let want = ffilled(&x, |e: &Option<i32>| *e == k, d, None);
+    positional!(
+        v.titer().ffill_mask(move |e: &Option<i32>| *e == k, d),
+        want,
+        N,
+        eq_opt,
+        "ffill_mask: a masked element becomes the nearest earlier unmasked element, else the default, else null"
+    );
+    has_none(&x)
+}
+
+pub fn bfill_opt<const N: usize>() -> bool {
+    let x: [Option<i32>; N] = kani::any();
+    let v = x.to_vec();
+    let d: Option<Option<i32>> = kani::any();
+    kani::cover!(d.is_none(), "no default");
+    kani::cover!(N == 0 || x[N - 1].is_none(), "trailing null");
+    let want = bfilled(&x, |e: &Option<i32>| e.is_none(), d, None);
+    positional!(v.titer().bfill(d), want, N, eq_opt, "bfill: a null becomes the nearest later non-null element, else the default, else null");
+    let k: Option<i32> = kani::any();
+    let want = bfilled(&x, |e: &Option<i32>| *e == k, d, None);
+    positional!(
+        v.titer().bfill_mask(move |e: &Option<i32>| *e == k, d),
+        want,
+        N,
+        eq_opt,
+        "bfill_mask: a masked element becomes the nearest later unmasked element, else the default, else null"
+    );
+    has_none(&x)
+}
+
+pub fn fbfill_f64<const N: usize>() -> bool {
+    let x: [f64; N] = f64_arr(-3, 3);
+    let v = x.to_vec();
+    let d: Option<f64> = if kani::any() { Some(small_f64_or_nan(-3, 3)) } else { None };
+    let want = ffilled(&x, |e: &f64| e.is_nan(), d, f64::NAN);
+    positional!(v.titer().ffill(d), want, N, eq_f64, "ffill: a null becomes the nearest earlier non-null element, else the default, else null");
+    let want = bfilled(&x, |e: &f64| e.is_nan(), d, f64::NAN);
+    positional!(v.titer().bfill(d), want, N, eq_f64, "bfill: a null becomes the nearest later non-null element, else the default, else null");
+    has_nan(&x)
+}
+
+pub fn fill_opt<const N: usize>() -> bool {
+    let x: [Option<i32>; N] = kani::any();
+    let v = x.to_vec();
+    let d: Option<i32> = kani::any();
+    kani::cover!(d.is_none(), "null fill value");
+    let want = filled(&x, |e: &Option<i32>| e.is_none(), d);
+    positional!(v.titer().fill(d), want, N, eq_opt, "fill: nulls become the value, every other element is untouched");
+    let k: Option<i32> = kani::any();
+    let want = filled(&x, |e: &Option<i32>| *e == k, d);
+    positional!(
+        v.titer().fill_mask(move |e: &Option<i32>| *e == k, d),
+        want,
+        N,
+        eq_opt,
+        "fill_mask: masked elements become the value, every other element is untouched"
+    );
+    let y: [f64; N] = f64_arr(-3, 3);
+    let vy = y.to_vec();
+    let dv = small_f64_or_nan(-3, 3);
+    let want = filled(&y, |e: &f64| e.is_nan(), dv);
+    positional!(vy.titer().fill(dv), want, N, eq_f64, "fill (floats): nulls become the value, every other element is untouched");
+    has_none(&x)
+}
+
+#[kani::proof]
+#[kani::unwind(9)]
+pub fn c13_ffill_opt_n4() {
+    witness(ffill_opt::<4>());
+}
+
+#[kani::proof]
+#[kani::unwind(9)]
+pub fn c13_bfill_opt_n4() {
+    witness(bfill_opt::<4>());
+}
+
+#[kani::proof]
+#[kani::unwind(8)]
+pub fn c13_fbfill_f64_n3() {
+    witness(fbfill_f64::<3>());
+}
+
+#[kani::proof]
+#[kani::unwind(9)]
+pub fn c13_fill_n4() {
+    witness(fill_opt::<4>());
+}
+
+#[kani::proof]
+#[kani::unwind(6)]
+pub fn c13_fills_small() {
+    let w: bool = {
+        ffill_opt::<0>();
+        ffill_opt::<1>();
+        bfill_opt::<1>();
+        fill_opt::<0>();
+        fbfill_f64::<1>()
+    };
+    witness(w);
+}
+
+#[cfg(feature = "thorough")]
+#[kani::proof]
+#[kani::unwind(6)]
+pub fn c13_bfill_empty() {
+    let w: bool = {
+        bfill_opt::<0>();
+        true
+    };
+    witness(w);
+}
+
+#[cfg(feature = "thorough")]
+#[kani::proof]
+#[kani::unwind(10)]
+pub fn c13_ffill_opt_n5() {
+    witness(ffill_opt::<5>());
+}
+
+#[cfg(feature = "thorough")]
+#[kani::proof]
+#[kani::unwind(10)]
+pub fn c13_bfill_opt_n5() {
+    witness(bfill_opt::<5>());
+}
+
+#[cfg(feature = "thorough")]
+#[kani::proof]
+#[kani::unwind(10)]
+pub fn c13_fbfill_f64_n5() {
+    witness(fbfill_f64::<5>());
+}
+
+#[cfg(feature = "thorough")]
+#[kani::proof]
+#[kani::unwind(10)]
+pub fn c13_fill_n5() {
+    witness(fill_opt::<5>());
+}
+
+
+// ---------------------------------------------------------------------------------------------
+// 4. vclip: four bound modes (literal at the call sites, values symbolic) incl. null bounds;
+//    idempotence and containment under lower <= upper
+// ---------------------------------------------------------------------------------------------
+
+macro_rules! clip_mode {
+    ($x:expr, $v:expr, $n:expr, $lo:expr, $hi:expr) => {{
+        let (lo, hi): (Option<i32>, Option<i32>) = ($lo, $hi);
+        let want = clipped(&$x, lo, hi);
+        positional!(
+            $v.titer().vclip(lo, hi),
+            want,
+            $n,
+            eq_opt,
+            "vclip: nulls stay null, elements below a non-null lower bound become it, above a non-null upper bound become it, the rest is untouched"
+        );
+        // idempotence and containment, claimed for lower <= upper (trivially also with a null bound)
+        let ordered = match (lo, hi) {
+            (Some(l), Some(u)) => l <= u,
+            _ => true,
+        };
+        if ordered {
+            let once: Vec<Option<i32>> = $v.titer().vclip(lo, hi).collect_trusted_to_vec();
+            positional!(once.titer().vclip(lo, hi), want, $n, eq_opt, "vclip is idempotent when lower <= upper");
+            let mut i = 0;
+            while i < $n {
+                if let Some(e) = want[i] {
+                    let above = match lo {
+                        Some(l) => e >= l,
+                        None => true,
+                    };
+                    let below = match hi {
+                        Some(u) => e <= u,
+                        None => true,
+                    };
+                    assert!(above && below, "vclip: every non-null result lies inside the bounds when lower <= upper");
+                }
+                i += 1;
+            }
+        }
+    }};
+}
+
+pub fn vclip_opt<const N: usize>() -> bool {
+    let x: [Option<i32>; N] = kani::any();
+    let v = x.to_vec();
+    let lo: i32 = kani::any();
+    let hi: i32 = kani::any();
+    kani::cover!(lo > hi, "bounds in the wrong order");
+    kani::cover!(lo == hi, "bounds equal");
+    clip_mode!(x, v, N, Some(lo), Some(hi));
+    clip_mode!(x, v, N, Some(lo), None);
+    clip_mode!(x, v, N, None, Some(hi));
+    clip_mode!(x, v, N, None, None);
+    has_none(&x)
+}
+
+macro_rules! clip_mode_f64 {
+    ($x:expr, $v:expr, $n:expr, $lo:expr, $hi:expr) => {{
+        let (lo, hi): (f64, f64) = ($lo, $hi);
+        let want = clipped_f64(&$x, lo, hi);
+        positional!(
+            $v.titer().vclip(lo, hi),
+            want,
+            $n,
+            eq_f64,
+            "vclip (floats): nulls stay null, elements below a non-null lower bound become it, above a non-null upper bound become it"
+        );
+    }};
+}
+
+pub fn vclip_f64<const N: usize>() -> bool {
+    let x: [f64; N] = f64_arr(-4, 4);
+    let v = x.to_vec();
+    let lo = small_i32(-3, 3) as f64;
+    let hi = small_i32(-3, 3) as f64;
+    clip_mode_f64!(x, v, N, lo, hi);
+    clip_mode_f64!(x, v, N, lo, f64::NAN);
+    clip_mode_f64!(x, v, N, f64::NAN, hi);
+    clip_mode_f64!(x, v, N, f64::NAN, f64::NAN);
+    has_nan(&x)
+}
+
+#[kani::proof]
+#[kani::unwind(8)]
+pub fn c13_vclip_opt_n3() {
+    witness(vclip_opt::<3>());
+}
+
+#[kani::proof]
+#[kani::unwind(8)]
+pub fn c13_vclip_f64_n3() {
+    witness(vclip_f64::<3>());
+}
+
+#[kani::proof]
+#[kani::unwind(6)]
+pub fn c13_vclip_small() {
+    let w: bool = {
+        vclip_opt::<1>();
+        vclip_f64::<0>();
+        true
+    };
+    witness(w);
+}
+
+#[cfg(feature = "thorough")]
+#[kani::proof]
+#[kani::unwind(10)]
+pub fn c13_vclip_opt_n5() {
+    witness(vclip_opt::<5>());
+}
+
+#[cfg(feature = "thorough")]
+#[kani::proof]
+#[kani::unwind(10)]
+pub fn c13_vclip_f64_n5() {
+    witness(vclip_f64::<5>());
+}
+
+
+// ---------------------------------------------------------------------------------------------
+// 5. abs / vabs (the type minimum is excluded: its absolute value does not exist, DESIGN 5.6)
+// ---------------------------------------------------------------------------------------------
+
+pub fn abs_all<const N: usize>() -> bool {
+    let x: [i32; N] = kani::any();
+    let mut i = 0;
+    while i < N {
+        kani::assume(x[i] != i32::MIN);
+        i += 1;
+    }
+    let v = x.to_vec();
+    let mut want = x;
+    let mut i = 0;
+    while i < N {
+        want[i] = if x[i] < 0 { -x[i] } else { x[i] };
+        i += 1;
+    }
+    positional!(v.titer().abs(), want, N, eq_i32, "abs: every element is replaced by its magnitude");
+    positional!(v.titer().vabs(), want, N, eq_i32, "vabs (integers): every element is replaced by its magnitude");
+
+    let y: [Option<i32>; N] = kani::any();
+    let mut i = 0;
+    while i < N {
+        kani::assume(y[i] != Some(i32::MIN));
+        i += 1;
+    }
+    let vy = y.to_vec();
+    let mut wy = y;
+    let mut i = 0;
+    while i < N {
+        wy[i] = match y[i] {
+            Some(e) => Some(if e < 0 { -e } else { e }),
+            None => None,
+        };
+        i += 1;
+    }
+    positional!(vy.titer().vabs(), wy, N, eq_opt, "vabs: nulls stay null, every other element is replaced by its magnitude");
+
+    let z: [f64; N] = f64_arr(-4, 4);
+    let vz = z.to_vec();
+    let mut wz = z;
+    let mut i = 0;
+    while i < N {
+        wz[i] = if z[i].is_nan() {
+            f64::NAN
+        } else if z[i] < 0. {
+            -z[i]
+        } else {
+            z[i]
+        };
+        i += 1;
+    }
+    positional!(vz.titer().vabs(), wz, N, eq_f64, "vabs (floats): nulls stay null, every other element is replaced by its magnitude");
+    positional!(vz.titer().abs(), wz, N, eq_f64, "abs (floats): NaN stays NaN, every other element is replaced by its magnitude");
+    has_none(&y) && has_nan(&z)
+}
+
+#[kani::proof]
+#[kani::unwind(9)]
+pub fn c13_abs_n4() {
+    witness(abs_all::<4>());
+}
+
+#[kani::proof]
+#[kani::unwind(6)]
+pub fn c13_abs_small() {
+    let w: bool = {
+        abs_all::<0>();
+        abs_all::<1>();
+        true
+    };
+    witness(w);
+}
+
+#[cfg(feature = "thorough")]
+#[kani::proof]
+#[kani::unwind(10)]
+pub fn c13_abs_n5() {
+    witness(abs_all::<5>());
+}
+
